@@ -827,7 +827,14 @@ impl<'a, 'b> Gen<'a, 'b> {
     fn multi(&mut self, d: usize) -> Expr {
         self.stat("multi_value_expr");
         let in_vararg = self.fns.last().map(|f| f.sig.vararg).unwrap_or(true);
-        match self.t.weighted(&[3, 3, 2, 2, if in_vararg { 3 } else { 0 }, 2]) {
+        match self.t.weighted(&[3, 3, 2, 2, if in_vararg { 3 } else { 0 }, 2, if self.o.luau { 2 } else { 0 }]) {
+            6 => {
+                // a cast in parentheses still truncates to one value (`(f() :: any)`, `(... :: any)`)
+                self.stat("parenthesised_cast_of_multi_value");
+                let inner = if in_vararg && self.t.bool(100) { Expr::Vararg } else { callg("probe2", vec![self.e_any(d)]) };
+                let ty = self.ty_of(&Kind::Any);
+                paren(Expr::Cast { expr: Box::new(inner), ty: Box::new(ty) })
+            }
             0 => callg("probe2", vec![self.e_any(d)]),
             1 => {
                 let a = self.e_any(d);
